@@ -1667,8 +1667,7 @@ class H2Connection:
             # remote peer now believes exists.
             if (self._stream_closed_by(frame.stream_id) ==
                     StreamClosedBy.SEND_RST_STREAM):
-                f = RstStreamFrame(frame.promised_stream_id)
-                f.error_code = ErrorCodes.REFUSED_STREAM
+                f = self._refuse_pushed_stream(frame.promised_stream_id)
                 return [f], events
 
             raise ProtocolError("Attempted to push on closed stream.")
@@ -1691,8 +1690,7 @@ class H2Connection:
             # The parent stream was reset by us, so we presume that
             # PUSH_PROMISE was in flight when we reset the parent stream.
             # So we just reset the new stream.
-            f = RstStreamFrame(frame.promised_stream_id)
-            f.error_code = ErrorCodes.REFUSED_STREAM
+            f = self._refuse_pushed_stream(frame.promised_stream_id)
             return [f], events
 
         new_stream = self._begin_new_stream(
@@ -1702,6 +1700,26 @@ class H2Connection:
         new_stream.remotely_pushed(pushed_headers)
 
         return frames, events + stream_events
+
+    def _refuse_pushed_stream(self, promised_stream_id):
+        """
+        Refuse a stream the peer promised on a stream we have reset.
+
+        The promised stream is remembered as reset by us: the peer may already
+        have sent frames on it before it sees our RST_STREAM, and those are
+        handled like any other frame racing a reset.
+        """
+        if (not self._stream_id_is_outbound(promised_stream_id) and
+                self.highest_inbound_stream_id < promised_stream_id <=
+                self.HIGHEST_ALLOWED_STREAM_ID):
+            self.highest_inbound_stream_id = promised_stream_id
+            self._closed_streams[promised_stream_id] = (
+                StreamClosedBy.SEND_RST_STREAM
+            )
+
+        f = RstStreamFrame(promised_stream_id)
+        f.error_code = ErrorCodes.REFUSED_STREAM
+        return f
 
     def _handle_data_on_closed_stream(self, events, exc, frame):
         # This stream is already closed - and yet we received a DATA frame.
